@@ -172,8 +172,9 @@ class MitmSim(simmod.Sim):
         self.cstreams = {}            # (src, space) -> {"chunks": {off: bytes}, "buf": bytearray}
         self.msgs = {}                # (src, space) -> {kind: (start, length)}
         self.scanned = 0
-        self.gen = 0                  # restarts of the client's TLS (Version Negotiation, Retry)
-        self.dggen = {}
+        self.sgen = {}                # (src, space) -> generation of that CRYPTO stream (restarts of the client's TLS)
+        self.dggen = {}               # datagram id -> generations when it was emitted
+        self.dgsrc = {}
         self.retry_odcid = None
         self.vn_sent = 0
         self.retry_sent = 0
@@ -268,24 +269,36 @@ class MitmSim(simmod.Sim):
 
     # -- the man in the middle -------------------------------------------------
     def _scan(self):
+        """Reassemble the CRYPTO streams from every datagram emitted so far.  A client that starts its
+        handshake afresh (after Version Negotiation or Retry) sends a NEW ClientHello at offset 0: bytes
+        that contradict what the stream already holds start a new generation of that stream."""
         for dgid in range(self.scanned + 1, self.dgid + 1):
             self.scanned = dgid
             if dgid not in self.emitted:
                 continue
-            self.dggen[dgid] = self.gen
-            src = None
-            for d in self.net:
-                if d["id"] == dgid:
-                    src = d["src"]
+            src = self.dgsrc.get(dgid)
             if src is None:
-                continue
+                for d in self.net:
+                    if d["id"] == dgid:
+                        src = d["src"]
+                if src is None:
+                    continue
+                self.dgsrc[dgid] = src
             for p in self.emitted[dgid]:
                 if not p.get("ok") or p["type"] not in ("initial", "handshake"):
                     continue
-                st = self.cstreams.setdefault((src, p["space"]), {"chunks": {}, "buf": bytearray()})
+                key = (src, p["space"])
+                st = self.cstreams.setdefault(key, {"chunks": {}, "buf": bytearray()})
                 for f in p["frames"]:
-                    if f["t"] == "crypto" and f["len"]:
-                        st["chunks"][f["off"]] = bytes(f["data"])
+                    if f["t"] != "crypto" or not f["len"]:
+                        continue
+                    off, data = f["off"], bytes(f["data"])
+                    have = bytes(st["buf"][off:off + len(data)])
+                    if have != data[:len(have)]:
+                        self.sgen[key] = self.sgen.get(key, 0) + 1
+                        st = self.cstreams[key] = {"chunks": {}, "buf": bytearray()}
+                        self.msgs.pop(key, None)
+                    st["chunks"][off] = data
                 grown = True
                 while grown:
                     grown = False
@@ -294,6 +307,7 @@ class MitmSim(simmod.Sim):
                             st["buf"] += data[len(st["buf"]) - off:]
                             grown = True
                 self._parse_messages(src, p["space"], st["buf"])
+            self.dggen[dgid] = dict(self.sgen)
 
     def _parse_messages(self, src, space, buf):
         table = CLIENT_MSG if src == "c" else SERVER_MSG
@@ -311,7 +325,14 @@ class MitmSim(simmod.Sim):
 
     def _reseal(self, src, p, plain, original):
         if p["type"] == "initial":
-            cands = [obs.initial_keys(p["ver"], self.obs.initial_dcid, src == "c")] if self.obs.initial_dcid else []
+            # Initial keys come from the destination CID of the client's first Initial of this attempt; the
+            # candidate that reproduces the genuine packet is the right one
+            dcids = []
+            for x in (self.obs.initial_dcid, RETRY_SCID if self.retry_sent else None, self.retry_odcid,
+                      bytes(p["dcid"]) if src == "c" else None):
+                if x and bytes(x) not in dcids:
+                    dcids.append(bytes(x))
+            cands = [obs.initial_keys(p["ver"], x, src == "c") for x in dcids]
         else:
             ks = self.obs.dir[src].hs or []
             cands = [k for k in ks if k.version == p["ver"]] or [obs.Keys(k.secret, p["ver"], k.suite) for k in ks]
@@ -328,7 +349,7 @@ class MitmSim(simmod.Sim):
         if not t or d["src"] != SRC_OF[t["msg"]]:
             return None
         space = SPACE_OF.get(t["msg"], "h")
-        if self.dggen.get(d["id"]) != self.gen:
+        if self.dggen.get(d["id"], {}).get((d["src"], space), 0) != self.sgen.get((d["src"], space), 0):
             return None                               # a datagram of a hello the client has abandoned
         m = self.msgs.get((d["src"], space), {}).get(t["msg"])
         if m is None or t["pos"] >= m[1]:
@@ -368,11 +389,8 @@ class MitmSim(simmod.Sim):
             if self._server_app(idx):
                 return
         if data is None and d["dst"] == "c" and d["pkts"] and d["pkts"][0]["type"] in ("vn", "retry"):
-            # the client may start its handshake afresh: new ClientHello, new CRYPTO stream, new Initial keys
-            self.gen += 1
-            self.cstreams.pop(("c", "i"), None)
-            self.msgs.pop(("c", "i"), None)
-            if d["pkts"][0]["type"] == "retry":
+            # the client may start its handshake afresh (new Initial keys after a Retry)
+            if d["pkts"][0]["type"] == "retry" and self.obs.initial_dcid != RETRY_SCID:
                 self.obs.initial_dcid = None
         if data is None:
             alt = self._alter(d)
